@@ -323,6 +323,7 @@ def table():
         ("algremoveif", ["i"], sized(1, par=lambda s: masks(s[0], 1), cap=5), always),
         ("alguniqueif", ["i"], sized(1, par=lambda s: [m for m in masks(s[0], 1) if not m or m[0] == 1], cap=5), always),
         ("algunique", ["i"], sized(1), always),
+        ("algseqitervec", ["i"], sized(1, par=lambda s: masks(s[0], 1), cap=5), always),
         ("algremove", ["i", "c"], sized(2, {1: [1]}), never),
         ("eithfirst", [], lambda maxn: [((), list(m)) for ln in range(maxn + 1) for m in itertools.product([0, 1], repeat=ln)], always),
     ]
@@ -417,6 +418,7 @@ def sampled_table():
         ("algmaplist", [ANY], {}, none, always),
         ("algremoveif", ["i"], {}, lambda r, s: [r.below(2) for _ in range(s[0])], always),
         ("alguniqueif", ["i"], {}, lambda r, s: [1] + [r.below(2) for _ in range(s[0] - 1)], always),
+        ("algseqitervec", ["i"], {}, lambda r, s: [r.below(2) for _ in range(s[0])], always),
     ]
 
 
